@@ -5,6 +5,7 @@ import Lm.Inv.MapOps
 import Lm.Inv.MapGen
 import Lm.Inv.MapIter
 import Lm.Inv.MapRun
+import Lm.Inv.MapAcct
 /-!
 # C05 — the string-keyed map behaves as a dictionary for all key sets and operation orders
 
@@ -230,6 +231,47 @@ theorem C05_wf_reachable_generated (bytes : κ → List (BitVec 8)) (dup autofre
     WF (genParams bytes) (run (genParams bytes) { map := new (genParams bytes) dup autofree update dtor } ops).map :=
   (C05_wf_reachable (genParams bytes) (genParams_good bytes) dup autofree update dtor ops).1
 
+/-- The ledger of key blocks, for a map that owns its keys (`KEY_DUP` or `KEY_AUTOFREE`), at every
+point of every history (any callbacks included): the blocks allocated for a key are the blocks
+released plus one exactly when the key is live — a private copy is created once per stored entry,
+released with it, never twice, and a copy that was not stored is released at once. -/
+theorem C05_keys_balanced (P : Params κ) (hP : P.Good) (dup autofree update dtor : Bool)
+    (hown : (autofree || dup) = true) (ops : List (Op κ)) (k : κ) :
+    let s := run P { map := new P dup autofree update dtor } ops
+    (s.log.count (Ev.kalloc k) : Int) =
+      s.log.count (Ev.kfree k) + (if k ∈ (content s.map).map (·.1) then 1 else 0) := by
+  intro s
+  have h0 : StOk P ({ map := new P dup autofree update dtor } : St κ) :=
+    ⟨WF_new P hP _ _ _ _, fun it h => by cases h⟩
+  have := run_delta P hP k ops _ h0 hown
+  have hl0 : live (new P dup autofree update dtor) k = 0 :=
+    live_of_absent _ k (fun v => not_has_replicate _ _)
+  simp only [kdelta, List.count_nil, hl0] at this
+  have hl : live s.map k = if k ∈ (content s.map).map (·.1) then 1 else 0 := rfl
+  rw [← hl]
+  show ((run P _ ops).log.count (Ev.kalloc k) : Int) = (run P _ ops).log.count (Ev.kfree k) + live (run P _ ops).map k
+  omega
+
+/-- No key block is leaked: once the map has been cleared (`m_map_clear`, `m_map_free`) every key
+block that was ever allocated has been released. -/
+theorem C05_no_key_leak (P : Params κ) (hP : P.Good) (dup autofree update dtor : Bool)
+    (hown : (autofree || dup) = true) (ops : List (Op κ)) (k : κ) :
+    let s := run P { map := new P dup autofree update dtor } (ops ++ [Op.clear])
+    s.log.count (Ev.kalloc k) = s.log.count (Ev.kfree k) := by
+  intro s
+  have h := C05_keys_balanced P hP dup autofree update dtor hown (ops ++ [Op.clear]) k
+  have hwf := (C05_wf_reachable P hP dup autofree update dtor ops).1
+  have hc : content s.map = [] := by
+    show content (run P _ (ops ++ [Op.clear])).map = []
+    unfold run
+    rw [List.foldl_append]
+    exact (C05_clear P hP _ hwf).2.2.2.2.1
+  change ((s.log.count (Ev.kalloc k) : Int) =
+    s.log.count (Ev.kfree k) + (if k ∈ (content s.map).map (·.1) then 1 else 0)) at h
+  rw [hc] at h
+  simp only [List.map_nil, List.not_mem_nil, if_false] at h
+  omega
+
 /-! ## Non-vacuity: a small instance with colliding keys and a cluster wrapping the table end -/
 
 /-- table of 8 slots, identity hash -/
@@ -241,7 +283,7 @@ def demoP : Params Nat where
   sizeDefault := 8
   maxSize := 64
 
-theorem demoP_good : demoP.Good := by
+theorem C05_demo_params_good : demoP.Good := by
   constructor
   · intro n k h0 _; exact Nat.mod_lt _ h0
   · intro n _; rfl
